@@ -142,6 +142,7 @@ def run_monitors(cfg, items, endl, props=None):
     created = {}     # key -> creation index (C12)
     cnt = {}         # key -> (count, idle_since) ideal map (C11/C14)
     track_policy = True
+    op_since_probe = False
     step = 0
     if endl != "end live0" and want("C08"):
         viol("C08", len(items), "value instances alive after the container was destroyed: %s" % endl)
@@ -194,6 +195,14 @@ def run_monitors(cfg, items, endl, props=None):
                 check_hit(i, k, v, now, "lookup")
             # C05: a key known written, deadline not reached, present at the previous probe and
             # not touched since must still be there (ut_*: always; tl: checked through C03)
+            # C05: nothing expires early — with no call in between, a key that was found and whose latest
+            # write's deadline has not been reached must still be found
+            if kind in TTLK and last_probe is not None and not op_since_probe:
+                for k in found(last_probe) - found(pr):
+                    d0 = dl.get(k)
+                    if d0 is not None and now < d0:
+                        viol("C05", i, "key %d disappeared between two observations at now=%d although its latest successful write expires at %d" % (k, now, d0))
+            op_since_probe = False
             last_probe, last_probe_now = pr, now
             # counts (C11/C14)
             if kind in ("lfu", "lfuda") and track_policy:
@@ -204,6 +213,7 @@ def run_monitors(cfg, items, endl, props=None):
                                  "use count of %d is %d, the history gives %d" % (k, v[1], cnt[k][0]))
             continue
         # ---- an operation ----
+        op_since_probe = True
         step += 1
         n = it["name"]
         pre = last_probe if last_probe_now == now or kind not in TTLK and kind != "lfuda" else None
@@ -253,6 +263,8 @@ def run_monitors(cfg, items, endl, props=None):
                 lw.setdefault(k, set()).add(v)
                 dl[k] = None
             if it["a"] == 3 and nres == len(ks):
+                for (t, k, v) in it["kvs"]:
+                    dl[k] = now + ttl_of(t) * MS      # every element was written: the last one for a key decides
                 # every element succeeds: each one is a use, in iteration order
                 pure_update = pre_found is not None and all(k in pre_found for k in ks)
                 for (t, k, v) in it["kvs"]:
